@@ -13,12 +13,16 @@ func c04(tier string) int {
 	plans := []enum.Plan{
 		{Family: "crash", Params: "iso;keys=2,slots=1,levels=RC.RR,gc=1;depth=4;deep=1"},
 		{Family: "crash", Params: "iso;keys=1,slots=2,levels=RC.RR,gc=1;depth=5;deep=1"},
+		// every way of writing (Set, SetReader, Create with several Write calls through the asynchronous
+		// pipeline, Delete) on two keys
+		{Family: "crash", Params: "kv;keys=2;depth=3;deep=1"},
 	}
 	if tier == "thorough" {
 		plans = []enum.Plan{
 			{Family: "crash", Params: "iso;keys=2,slots=2,levels=RC.RR,gc=1;depth=5;deep=1"},
 			{Family: "crash", Params: "iso;keys=1,slots=2,levels=RC.RR,gc=1;depth=6;deep=1"},
 			{Family: "crash", Params: "iso;keys=2,slots=1,levels=RU.SER,gc=1;depth=5;deep=1"},
+			{Family: "crash", Params: "kv;keys=2;depth=4;deep=1"},
 		}
 	}
 	if tier == "thorough" {
@@ -27,7 +31,7 @@ func c04(tier string) int {
 		plans = append(plans, enum.Plan{Family: "sigkill", Params: "quick"})
 	}
 	return enumCheckLevel("C04", "fault_enumeration", tier, 150*time.Second, 25*time.Minute, plans,
-		"every workload of the stated depth (autocommit Set/Delete, Begin/Set/Delete/Commit/Rollback at RC and RR, GC; keys a,b; both background policies) runs once with every persistent mutation logged (file create, each write, remove, mkdir, KV single-key commit, KV multi-key commit); for EVERY prefix of the log, and for the torn variant of every file write, the state is materialised, a new process recovers and reads: the result must be the model after the acknowledged operations or after those plus the one in flight (whole operation), every listed key readable with one complete content; a second recovery must agree; with deep=1 the recovery itself is crashed at each of its mutation points; real-process tier (family sigkill): fixed workloads run in a child process on the real Badger engine and real files, killed by SIGKILL immediately before its n-th counted mutation for every n, recovered by the parent with the real engine",
+		"every workload of the stated depth (autocommit Set/Delete, Begin/Set/Delete/Commit/Rollback at RC and RR, GC; and the autocommit alphabet of C01 with SetReader and Create through the asynchronous pipeline; keys a,b; both background policies) runs once with every persistent mutation logged (file create, each write, remove, mkdir, KV single-key commit, KV multi-key commit); for EVERY prefix of the log, and for the torn variant of every file write, the state is materialised, a new process recovers and reads: the result must be the model after the acknowledged operations or after those plus the one in flight (whole operation), every listed key readable with one complete content; a second recovery must agree; with deep=1 the recovery itself is crashed at each of its mutation points; real-process tier (family sigkill): fixed workloads run in a child process on the real Badger engine and real files, killed by SIGKILL immediately before its n-th counted mutation for every n, recovered by the parent with the real engine",
 		[]string{"process kill, not power loss: every completed file-system call and KV commit is durable, a KV transaction is atomic (Badger's own crash safety is trusted); torn file writes are modelled by a half-written chunk",
 			"in-memory Badger engine with full version history (an image takes the volume as of any past commit); bound to the real engine and real SIGKILL by the conformance tier (DESIGN.md §2.9)"})
 }
